@@ -7,6 +7,9 @@ From FT Require Import Model.Base Model.Obs Model.C16Metrics Model.C16Nest Model
 Import ListNotations.
 Open Scope Z_scope.
 
+Section WithZZ.
+Context {zz : ZZ}.
+
 Fixpoint enum_items (v : Z) (items : list item) : list (Z * Z * Z) :=
   match items with
   | [] => []
@@ -223,3 +226,5 @@ Proof.
   split; [apply S1|]. intros kk Hin. destruct (E1 kk) as (data & Ed & Od). exists data.
   split; auto. unfold st'. rewrite content_is_emits by auto. rewrite Ed. reflexivity.
 Qed.
+
+End WithZZ.
